@@ -17,9 +17,11 @@ PROP = "C11"
 IPC = "aiohomekit.controller.ip.connection"
 OUTCOMES = ["ok", "InvalidSignatureError", "InvalidAuthTagError", "IncorrectPairingIdError", "AuthenticationError", "InvalidError",
             "TlvParseException", "ValueError", "CancelledError",
-            "peer-close-at-M1", "peer-close-at-M3", "http-470-at-M1", "http-400-at-M3"]
+            "peer-close-at-M1", "peer-close-at-M3", "http-470-at-M1", "http-400-at-M3",
+            # pair-verify succeeds, then the owner's connection_made(True) hook (re-subscription) fails
+            "ok-then-hook-KeyError", "ok-then-hook-HttpErrorResponse"]
 REPRESENTATIVES = ["ok", "InvalidSignatureError", "IncorrectPairingIdError", "ValueError", "CancelledError",
-                   "peer-close-at-M1", "peer-close-at-M3", "http-470-at-M1"]
+                   "peer-close-at-M1", "peer-close-at-M3", "http-470-at-M1", "ok-then-hook-KeyError"]
 HOSTS = [["10.0.0.1"], ["accessory.local"]]  # an advertised literal address, or a name that resolves to it
 
 
@@ -275,6 +277,17 @@ def attempt(M, env, conn, out, late_loss=False):
                                + str(len(body)).encode() + b"\r\n\r\n" + body)
 
     env.script = script
+
+    class Owner:
+        name, description = "owner", None
+
+        async def connection_made(self, secure):
+            if secure and out == "ok-then-hook-KeyError":
+                raise KeyError("status")
+            if secure and out == "ok-then-hook-HttpErrorResponse":
+                raise X.HttpErrorResponse("Got HTTP error 400 for PUT against /characteristics", response=None)
+
+    conn.owner = Owner() if out.startswith("ok-then-hook") else None
 
     def gsk(pairing_data):
         resp = yield ([(6, b"\x01")], [6, 7])
